@@ -175,3 +175,18 @@ Definition cleanup_ok (c : pcase) : bool :=
                            | _ => true end) (o_nodes o)
   | _, _, _ => false
   end.
+
+(* C01: the proved validator (Proofs/SimValidator.v) on the implementation's allocation: liveness is
+   recomputed by the (proved exact) model over the reads/writes the property text demands, and no
+   definition may land on the storage of another value that is live after it *)
+From Avo Require Import Model.Sem Proofs.SimLink Proofs.SimValidator.
+Definition prog_regs_of (o : observed) : option prog_regs_t :=
+  (fix go (is : list instr) (ss : list (list (option nat))) : option prog_regs_t :=
+     match is, ss with
+     | i :: r, s :: rs => match input_registers_with false i, go r rs with
+                          | OK u, Some rest => Some ((u, output_registers i, s) :: rest)
+                          | _, _ => None end
+     | _, _ => Some []
+     end) (instructions (o_after_zext o)) (o_succs o).
+Definition sim_ok (o : observed) : bool :=
+  if reached_alloc o then match prog_regs_of o with Some pr => allocation_valid (o_alloc o) pr | None => true end else true.
